@@ -2,49 +2,24 @@
   C18 — Enum and Flag representations are bijections on their members.
   Property theorems only; helper lemmas live in `AdaptixProofs/Lemmas/Enum*.lean`.
 
+  The notions used in the statements (`ReprByValue`, `InjectiveNames`, `unionOf`, `ValidValue`,
+  `InjectiveCaseNames`, `EveryBitNamed`, `Container`) are defined in
+  `AdaptixProofs/Lemmas/EnumSpec.lean`, `EnumClass.WF` in `Lemmas/EnumClass.lean`.
+
   All statements quantify over every class (any number of entries, aliases, values of
   the model's universe), every option combination and every datum.  The `example`s
   next to them are non-vacuity tests on literals.
 -/
 import AdaptixModel.Morph.Enum
 import AdaptixModel.Morph.Flag
-import AdaptixProofs.Lemmas.EnumVal
-import AdaptixProofs.Lemmas.EnumNames
-import AdaptixProofs.Lemmas.EnumClass
-import AdaptixProofs.Lemmas.EnumFlag
+import AdaptixProofs.Lemmas.EnumSpec
+import AdaptixProofs.Lemmas.EnumProviders
 
 namespace Adaptix.Enum.C18
 
 open Adaptix.Enum
 
 /-! ## Enum: representation by exact value -/
-
-/-- "`d` is the representation of member `m`": equal (Python `==`) to its value, or —
-    when no member value is equal to it — what the class's own `_missing_` hook maps to `m`. -/
-def ReprByValue (c : EnumClass) (d : PyVal) (m : Member) : Prop :=
-  m ∈ c.iter ∧ (m.value.pyEq d = true ∨
-    ((∀ m' ∈ c.iter, m'.value.pyEq d = false) ∧ c.missingHook d = some m))
-
-theorem reprByValue_iff {c : EnumClass} (wf : c.WF) (d : PyVal) (m : Member) :
-    (c.lookup d).orElse (fun _ => c.missingHook d) = some m ↔ ReprByValue c d m := by
-  unfold ReprByValue
-  cases hl : c.lookup d with
-  | none =>
-    have hn := EnumClass.lookup_none_iff.1 hl
-    simp only [Option.orElse_none]
-    constructor
-    · intro h; exact ⟨EnumClass.missingHook_mem h, Or.inr ⟨hn, h⟩⟩
-    · rintro ⟨hm, h | h⟩
-      · rw [hn m hm] at h; cases h
-      · exact h.2
-  | some m' =>
-    obtain ⟨hm', hpe'⟩ := (EnumClass.lookup_some_iff wf).1 hl
-    simp only [Option.orElse_some, Option.some.injEq]
-    constructor
-    · rintro rfl; exact ⟨hm', Or.inl hpe'⟩
-    · rintro ⟨hm, h | h⟩
-      · exact wf.unique hm' hm (PyVal.pyEq_trans' hpe' h)
-      · rw [h.1 m' hm'] at hpe'; cases hpe'
 
 /-- **Round trip, exact value**: dumping any member and loading the result returns the
     same member — whichever loader implementation (value table or `enum(data)`) is in use,
@@ -112,45 +87,6 @@ theorem enum_value_rejects {c : EnumClass} (k : ValueKind) (d : PyVal) :
   · simp [hk]
 
 /-! ## Enum: representation by name (name_style / map) -/
-
-/-- the (decidable) hypothesis of the by-name round trip: the configured name mapping
-    sends different members to different strings -/
-abbrev InjectiveNames (c : EnumClass) (cfg : NameCfg) : Prop :=
-  InjectiveOn Member.name cfg c.membersValues
-
-instance (c : EnumClass) (cfg : NameCfg) : Decidable (InjectiveNames c cfg) :=
-  inferInstanceAs (Decidable (∀ a ∈ c.membersValues, ∀ b ∈ c.membersValues,
-    cfg.mapped a.name = cfg.mapped b.name → a = b))
-
-theorem enumNameLoader_ok {c : EnumClass} {cfg : NameCfg} {ld : PyVal → Outcome Member}
-    (h : enumNameLoader c cfg = .ok ld) :
-    ∃ mapping, genForLoading Member.name cfg c.membersValues = some mapping ∧
-      ld = fun data =>
-        if data.hashable then
-          match data.strKey with
-          | some s =>
-            match dictGet (· == ·) mapping s with
-            | some m => .ok m
-            | none => .loadErr (.badVariant (nameVariants mapping))
-          | none => .loadErr (.badVariant (nameVariants mapping))
-        else .loadErr (.badVariant (nameVariants mapping)) := by
-  unfold enumNameLoader at h
-  split at h
-  · cases h
-  · rename_i mapping hm
-    injection h with h
-    exact ⟨mapping, hm, h.symm⟩
-
-theorem enumNameDumper_ok {c : EnumClass} {cfg : NameCfg} {dp : Member → Option PyVal}
-    (h : enumNameDumper c cfg = .ok dp) :
-    ∃ mapping, genForDumping Member.name cfg c.membersValues = some mapping ∧
-      dp = fun data => (dictGet (· == ·) mapping data).map fun s => .atom (.str s) := by
-  unfold enumNameDumper at h
-  split at h
-  · cases h
-  · rename_i mapping hm
-    injection h with h
-    exact ⟨mapping, hm, h.symm⟩
 
 /-- **Round trip, by name**: whenever loader and dumper can be created and the name
     mapping (map entries by member or by name, name_style, plain name — aliases included)
@@ -226,47 +162,6 @@ theorem enum_name_creation {c : EnumClass} {cfg : NameCfg}
 
 
 /-! ## Flag: representation by exact value -/
-
-/-- a union of (any) members of the class: "a member or any combination of flags" -/
-def unionOf (S : List FlagCase) : Nat := orAll (S.map (·.bits))
-
-/-- CPython's own notion of a valid value of the class within the mask: a STRICT flag
-    refuses a value that contains members but also bits no contained member accounts for. -/
-def ValidValue (c : FlagClass) (v : Nat) : Prop :=
-  c.strict = true → c.cover v = 0 ∨ c.cover v = v
-
-theorem call_eq_some_iff (c : FlagClass) (v : Nat) : c.call v = some v ↔ ValidValue c v := by
-  unfold FlagClass.call ValidValue
-  by_cases hs : c.strict = true <;> by_cases h0 : c.cover v = 0 <;> by_cases hv : c.cover v = v <;>
-    simp [hs, h0, hv]
-
-theorem call_eq_none_iff (c : FlagClass) (v : Nat) : c.call v = none ↔ ¬ ValidValue c v := by
-  rw [← call_eq_some_iff]
-  unfold FlagClass.call
-  dsimp only
-  split <;> simp
-
-theorem flagExactLoader_ok {c : FlagClass} {ld : PyVal → Outcome Nat}
-    (h : flagExactLoader c = .ok ld) :
-    allBits c.mask = c.mask ∧
-      ld = fun data =>
-        match data with
-        | .atom (.int i) =>
-          if i < 0 || i > (c.mask : Int) then .loadErr (.outOfRange 0 c.mask)
-          else
-            match c.call i.toNat with
-            | some v => .ok v
-            | none => .loadErr (.msg "Bad flag value")
-        | _ => .loadErr .typeLoad := by
-  unfold flagExactLoader at h
-  dsimp only at h
-  split at h
-  · cases h
-  · split at h
-    · cases h
-    · rename_i hg
-      injection h with h
-      exact ⟨by simpa using hg, h.symm⟩
 
 /-- **Round trip, flag by exact value**: for every flag class the loader can be created
     for (no skipped bits) and every union of its members — zero-valued, compound,
@@ -348,80 +243,6 @@ theorem flag_exact_creation (c : FlagClass) (hne : c.entries ≠ []) :
 
 /-! ## Flag: representation by the list of member names -/
 
-/-- the (decidable) hypothesis of the name-list round trip: different cases the provider
-    may use get different names -/
-abbrev InjectiveCaseNames (c : FlagClass) (cfg : NameCfg) (o : ListOpts) : Prop :=
-  InjectiveOn FlagCase.name cfg (c.getCases o)
-
-instance (c : FlagClass) (cfg : NameCfg) (o : ListOpts) : Decidable (InjectiveCaseNames c cfg o) :=
-  inferInstanceAs (Decidable (∀ a ∈ c.getCases o, ∀ b ∈ c.getCases o,
-    cfg.mapped a.name = cfg.mapped b.name → a = b))
-
-theorem flagListLoader_ok {c : FlagClass} {cfg : NameCfg} {o : ListOpts} {ld : PyVal → Outcome Nat}
-    (h : flagListLoader c cfg o = .ok ld) :
-    ∃ mapping, genForLoading FlagCase.name cfg (c.getCases o) = some mapping ∧
-      ld = fun data =>
-        match data with
-        | .list xs => listLoadItems o mapping xs
-        | .tuple xs => listLoadItems o mapping xs
-        | .mapping ks =>
-          if o.strictCoercion then .loadErr .excludedType
-          else listLoadItems o mapping ks
-        | .atom (.str s) =>
-          if o.allowSingleValue then listLoadItems o mapping [.str s]
-          else .loadErr .typeLoad
-        | _ => .loadErr .typeLoad := by
-  unfold flagListLoader at h
-  dsimp only at h
-  split at h
-  · cases h
-  · rename_i mapping hm
-    split at h
-    · cases h
-    · injection h with h
-      exact ⟨mapping, hm, h.symm⟩
-
-/-- the cases in the order the dumper visits them -/
-def dumpCases (c : FlagClass) (o : ListOpts) : List FlagCase :=
-  if o.allowCompound && c.getCases o != c.nonCompound then (c.getCases o).reverse else c.getCases o
-
-theorem mem_dumpCases {c : FlagClass} {o : ListOpts} {s : FlagCase} :
-    s ∈ dumpCases c o ↔ s ∈ c.getCases o := by
-  unfold dumpCases; split <;> simp
-
-theorem flagListDumper_ok {c : FlagClass} {cfg : NameCfg} {o : ListOpts} {dp : Nat → List String}
-    (h : flagListDumper c cfg o = .ok dp) :
-    ∃ mapping, genForDumping FlagCase.name cfg (dumpCases c o) = some mapping ∧
-      ∀ value, ∃ chosen : List FlagCase,
-        dp value = chosen.map (fun c => (dictGet (· == ·) mapping c).getD "") ∧
-        chosen.Nodup ∧ (∀ s ∈ chosen, s ∈ c.getCases o) ∧
-        orAll (chosen.map (·.bits)) = finalSum value (dumpCases c o) 0 := by
-  unfold flagListDumper at h
-  dsimp only at h
-  split at h
-  · cases h
-  · rename_i mapping hm
-    split at h
-    · cases h
-    · injection h with h
-      refine ⟨mapping, hm, ?_⟩
-      intro value
-      have hsum : orAll ((chosenGo value (dumpCases c o) 0).map (·.bits)) =
-          finalSum value (dumpCases c o) 0 := by simp [finalSum]
-      have hmem : ∀ s ∈ chosenGo value (dumpCases c o) 0, s ∈ c.getCases o :=
-        fun s hs => mem_dumpCases.1 (chosenGo_mem hs).1
-      subst h
-      simp only [listDumpLoop_eq, List.nil_append]
-      by_cases hrev : (o.allowCompound && c.getCases o != c.nonCompound) = true
-      · refine ⟨(chosenGo value (dumpCases c o) 0).reverse, ?_, ?_, ?_, ?_⟩
-        · simp [hrev, dumpCases, List.map_reverse]
-        · rw [List.Nodup, List.pairwise_reverse]
-          exact (chosenGo_nodup _ _ _).imp (fun h => Ne.symm h)
-        · intro s hs; exact hmem s (List.mem_reverse.1 hs)
-        · rw [List.map_reverse, orAll_reverse]; exact hsum
-      · refine ⟨chosenGo value (dumpCases c o) 0, ?_, chosenGo_nodup _ _ _, hmem, hsum⟩
-        simp [hrev, dumpCases]
-
 /-- **Round trip, flag by member-name list**: for every flag class (zero-valued, compound,
     multi-bit members, aliases, any number of bits), every name configuration that is
     injective on the cases in use, and **every combination of** `allow_single_value`,
@@ -477,13 +298,6 @@ theorem flag_list_rt_all_members {c : FlagClass} {cfg : NameCfg} {o : ListOpts}
     ld (.list ((dp (unionOf S)).map Atom.str)) = .ok (unionOf S) :=
   flag_list_rt hl hd hinj (fun s hs => by simpa [FlagClass.getCases, hc] using hS s hs)
 
-/-- every member is a union of single-bit members of the class -/
-def EveryBitNamed (c : FlagClass) : Prop :=
-  ∀ m ∈ c.membersValues, ∃ T : List FlagCase, (∀ t ∈ T, t ∈ c.nonCompound) ∧ m.bits = unionOf T
-
-theorem unionOf_append (a b : List FlagCase) : unionOf (a ++ b) = unionOf a ||| unionOf b := by
-  simp [unionOf, orAll_append]
-
 /-- `allow_compound = False`, what does hold: every combination of members round-trips
     provided every member is a union of single-bit members (`EveryBitNamed`).
     The full statement — for *every* flag class — is `FlagListRoundTripFull` below; it is false. -/
@@ -531,60 +345,6 @@ theorem flag_list_rt_full_fails : ¬ FlagListRoundTripFull := by
 
 /-! ## Flag by member names: the loader accepts exactly the representations -/
 
-/-- how the loader obtains the sequence of items it processes -/
-def Container (o : ListOpts) (d : PyVal) (items : List Atom) : Prop :=
-  d = .list items ∨ d = .tuple items ∨ (d = .mapping items ∧ o.strictCoercion = false) ∨
-    ∃ s, d = .atom (.str s) ∧ o.allowSingleValue = true ∧ items = [.str s]
-
-/-- the dispatch on the type of the datum at the head of `flag_loader` -/
-def dispatch (o : ListOpts) (ml : List (String × FlagCase)) (d : PyVal) : Outcome Nat :=
-  match d with
-  | .list xs => listLoadItems o ml xs
-  | .tuple xs => listLoadItems o ml xs
-  | .mapping ks => if o.strictCoercion then .loadErr .excludedType else listLoadItems o ml ks
-  | .atom (.str s) => if o.allowSingleValue then listLoadItems o ml [.str s] else .loadErr .typeLoad
-  | _ => .loadErr .typeLoad
-
-theorem dispatch_of_container {o : ListOpts} {ml : List (String × FlagCase)} {d : PyVal}
-    {items : List Atom} (h : Container o d items) : dispatch o ml d = listLoadItems o ml items := by
-  unfold Container at h
-  rcases h with rfl | rfl | ⟨rfl, hs⟩ | ⟨s, rfl, hs, rfl⟩ <;> simp [dispatch, *]
-
-theorem dispatch_cases {o : ListOpts} {ml : List (String × FlagCase)} (d : PyVal) :
-    (∃ items, Container o d items) ∨
-      ((∀ items, ¬ Container o d items) ∧
-        (dispatch o ml d = .loadErr .typeLoad ∨ dispatch o ml d = .loadErr .excludedType)) := by
-  cases d with
-  | list xs => exact Or.inl ⟨xs, Or.inl rfl⟩
-  | tuple xs => exact Or.inl ⟨xs, Or.inr (Or.inl rfl)⟩
-  | mapping ks =>
-    by_cases hs : o.strictCoercion = true
-    · refine Or.inr ⟨fun items hc => ?_, Or.inr (by simp [dispatch, hs])⟩
-      unfold Container at hc; simp [hs] at hc
-    · exact Or.inl ⟨ks, Or.inr (Or.inr (Or.inl ⟨rfl, by simpa using hs⟩))⟩
-  | self n a =>
-    refine Or.inr ⟨fun items hc => ?_, Or.inl rfl⟩
-    unfold Container at hc; simp at hc
-  | atom a =>
-    by_cases hstr : ∃ s, a = .str s
-    · obtain ⟨s, rfl⟩ := hstr
-      by_cases hs : o.allowSingleValue = true
-      · exact Or.inl ⟨[.str s], Or.inr (Or.inr (Or.inr ⟨s, rfl, hs, rfl⟩))⟩
-      · refine Or.inr ⟨fun items hc => ?_, Or.inl (by simp [dispatch, hs])⟩
-        unfold Container at hc; simp [hs] at hc
-    · refine Or.inr ⟨fun items hc => ?_, Or.inl ?_⟩
-      · unfold Container at hc
-        simp at hc
-        obtain ⟨s, hs, _⟩ := hc
-        exact hstr ⟨s, hs⟩
-      · cases a <;> first | rfl | exact absurd ⟨_, rfl⟩ hstr
-
-theorem flagListLoader_ok' {c : FlagClass} {cfg : NameCfg} {o : ListOpts} {ld : PyVal → Outcome Nat}
-    (h : flagListLoader c cfg o = .ok ld) :
-    ∃ ml, genForLoading FlagCase.name cfg (c.getCases o) = some ml ∧ ld = dispatch o ml := by
-  obtain ⟨ml, hml, rfl⟩ := flagListLoader_ok h
-  exact ⟨ml, hml, rfl⟩
-
 /-- **The name-list loader accepts exactly the representations**: a list / tuple (a mapping
     under lax coercion, a single `str` when `allow_single_value`) whose items are, one by
     one, the mapped names of cases the provider uses — without equal items unless
@@ -597,7 +357,7 @@ theorem flag_list_accepts_iff {c : FlagClass} {cfg : NameCfg} {o : ListOpts} {ld
         (∀ k ∈ cs, k ∈ c.getCases o) ∧
         cs.map (fun k => (cfg.mapped k.name).map Atom.str) = items.map some ∧
         v = unionOf cs := by
-  obtain ⟨ml, hml, rfl⟩ := flagListLoader_ok' hl
+  obtain ⟨ml, hml, rfl⟩ := flagListLoader_dispatch hl
   constructor
   · intro hload
     rcases dispatch_cases (o := o) (ml := ml) d with ⟨items, hcont⟩ | ⟨_, h | h⟩
@@ -636,7 +396,7 @@ theorem flag_list_rejects {c : FlagClass} {cfg : NameCfg} {o : ListOpts} {ld : P
     (hl : flagListLoader c cfg o = .ok ld) (d : PyVal) :
     (∃ v, ld d = .ok v) ∨ (∃ e, ld d = .loadErr e) ∨
       (o.allowDuplicates = false ∧ ∃ items, Container o d items ∧ items.all Atom.hashable = false) := by
-  obtain ⟨ml, _, rfl⟩ := flagListLoader_ok' hl
+  obtain ⟨ml, _, rfl⟩ := flagListLoader_dispatch hl
   rcases dispatch_cases (o := o) (ml := ml) d with ⟨items, hcont⟩ | ⟨_, h | h⟩
   · by_cases hok : o.allowDuplicates = true ∨ items.all Atom.hashable = true
     · rw [dispatch_of_container hcont]
@@ -648,5 +408,148 @@ theorem flag_list_rejects {c : FlagClass} {cfg : NameCfg} {o : ListOpts} {ld : P
       · cases hh : items.all Atom.hashable <;> simp_all
   · exact Or.inr (Or.inl ⟨_, h⟩)
   · exact Or.inr (Or.inl ⟨_, h⟩)
+
+/-! ## Creation of loader and dumper -/
+
+/-- **Creation is total for the name-list provider**: for every non-empty flag class —
+    zero-valued members, aliases, compound and multi-bit members, any bit positions — and
+    every option combination, creating the loader and the dumper succeeds as soon as
+    every member name can be mapped (the only thing that can raise is
+    `convert_snake_style` on a name that is not snake style). -/
+theorem creation_total (c : FlagClass) (cfg : NameCfg) (o : ListOpts) (hne : c.entries ≠ [])
+    (hnames : ∀ m ∈ c.membersValues, (cfg.mapped m.name).isSome = true) :
+    (flagListLoader c cfg o).isOk = true ∧ (flagListDumper c cfg o).isOk = true := by
+  have he : c.entries.isEmpty = false := by
+    cases h : c.entries with
+    | nil => exact absurd h hne
+    | cons _ _ => rfl
+  constructor
+  · obtain ⟨r, hr⟩ := genMappingGo_isSome FlagCase.name cfg (acc := []) (cases := c.getCases o)
+      (fun m hm => hnames m (FlagClass.getCases_sub hm))
+    have hd : genForDumping FlagCase.name cfg (c.getCases o) = some r := hr
+    unfold flagListLoader genForLoading
+    simp [hd, he, Create.isOk]
+  · obtain ⟨r, hr⟩ := genMappingGo_isSome FlagCase.name cfg (acc := []) (cases := dumpCases c o)
+      (fun m hm => hnames m (FlagClass.getCases_sub (mem_dumpCases.1 hm)))
+    have hd : genForDumping FlagCase.name cfg (dumpCases c o) = some r := hr
+    unfold dumpCases at hd
+    unfold flagListDumper
+    dsimp only
+    rw [hd]
+    simp [he, Create.isOk]
+
+/-- in particular without a name_style (plain names and/or a `map`) creation never fails -/
+theorem creation_total_no_style (c : FlagClass) (cfg : NameCfg) (o : ListOpts) (hne : c.entries ≠ [])
+    (h : cfg.style = none) :
+    (flagListLoader c cfg o).isOk = true ∧ (flagListDumper c cfg o).isOk = true :=
+  creation_total c cfg o hne (fun m _ => mapped_isSome_of_no_style h m.name)
+
+/-! ## Summary: what is not a representation is rejected with a LoadError -/
+
+/-- **The five loaders reject exactly the non-representations**: a datum from the outside
+    world that is not the representation of a member (of a value, for flags) — in the
+    sense of the `…_accepts_iff` theorems above — is answered with a `LoadError` by every
+    provider; nothing else can leave a loader, except the `TypeError` of `set()` on unhashable
+    list items under `allow_duplicates=False` (C04's finding). -/
+theorem loader_rejects_exactly_non_representations :
+    -- enum, exact value
+    (∀ (c : EnumClass) (d : PyVal), c.WF → d.isSelf = false → (∀ m, ¬ ReprByValue c d m) →
+      ∃ e, enumExactLoader c d = .loadErr e) ∧
+    -- enum, by name
+    (∀ (c : EnumClass) (cfg : NameCfg) (ld : PyVal → Outcome Member) (d : PyVal),
+      enumNameLoader c cfg = .ok ld → InjectiveNames c cfg → d.isSelf = false →
+      (∀ m, ¬ (m ∈ c.iter ∧ ∃ s, cfg.mapped m.name = some s ∧ d = .atom (.str s))) →
+      ∃ e, ld d = .loadErr e) ∧
+    -- enum, by value
+    (∀ (c : EnumClass) (k : ValueKind) (d : PyVal), c.WF → d.isSelf = false →
+      (∀ m, ¬ (k.accepts d = true ∧ ReprByValue c d m)) → ∃ e, enumValueLoader c k d = .loadErr e) ∧
+    -- flag, exact value
+    (∀ (c : FlagClass) (ld : PyVal → Outcome Nat) (d : PyVal), flagExactLoader c = .ok ld →
+      (∀ v : Nat, ¬ (d = .atom (.int v) ∧ v ≤ c.mask ∧ ValidValue c v)) → ∃ e, ld d = .loadErr e) ∧
+    -- flag, list of member names
+    (∀ (c : FlagClass) (cfg : NameCfg) (o : ListOpts) (ld : PyVal → Outcome Nat) (d : PyVal),
+      flagListLoader c cfg o = .ok ld → InjectiveCaseNames c cfg o →
+      (∀ v, ¬ ∃ (items : List Atom) (cs : List FlagCase), Container o d items ∧
+        (o.allowDuplicates = true ∨ items.Pairwise (fun a b => a.pyEq b = false)) ∧
+        (∀ k ∈ cs, k ∈ c.getCases o) ∧
+        cs.map (fun k => (cfg.mapped k.name).map Atom.str) = items.map some ∧ v = unionOf cs) →
+      (∃ e, ld d = .loadErr e) ∨
+        (o.allowDuplicates = false ∧ ∃ items, Container o d items ∧ items.all Atom.hashable = false)) := by
+  refine ⟨?_, ?_, ?_, ?_, ?_⟩
+  · intro c d wf hd h
+    exact ⟨_, enum_exact_rejects wf hd h⟩
+  · intro c cfg ld d hl hinj hd h
+    rcases enum_name_rejects hl d with ⟨m, hm⟩ | ⟨vs, hvs⟩
+    · exact absurd ((enum_name_accepts_iff hl hinj hd m).1 hm) (h m)
+    · exact ⟨_, hvs⟩
+  · intro c k d wf hd h
+    rcases enum_value_rejects (c := c) k d with ⟨m, hm⟩ | he
+    · exact absurd ((enum_value_accepts_iff wf k hd m).1 hm) (h m)
+    · exact he
+  · intro c ld d hl h
+    rcases flag_exact_rejects hl d with ⟨v, hv⟩ | he
+    · exact absurd ((flag_exact_accepts_iff hl d v).1 hv) (h v)
+    · exact he
+  · intro c cfg o ld d hl hinj h
+    rcases flag_list_rejects hl d with ⟨v, hv⟩ | he | hc
+    · exact absurd ((flag_list_accepts_iff hl hinj d v).1 hv) (h v)
+    · exact Or.inl he
+    · exact Or.inr hc
+
+/-! ## Non-vacuity: the theorems' hypotheses are satisfiable and the functions compute -/
+
+/-- `class F(Flag): Z = 0; A = 1; B = 2; AB = 3; C = 4; AL = 1` -/
+def exFlag : FlagClass :=
+  { entries := [⟨"Z", 0⟩, ⟨"A", 1⟩, ⟨"B", 2⟩, ⟨"AB", 3⟩, ⟨"C", 4⟩, ⟨"AL", 1⟩] }
+
+def lowerCfg : NameCfg := { style := styleOfName "LOWER" }
+
+example : (flagListLoader exFlag lowerCfg {}).isOk = true ∧ (flagListDumper exFlag lowerCfg {}).isOk = true := by
+  decide
+example : InjectiveCaseNames exFlag lowerCfg {} := by decide
+example : (match flagListDumper exFlag {} {} with | .ok dp => dp 7 | _ => []) = ["AB", "C", "A"] := by decide
+example : (match flagListDumper exFlag {} { allowCompound := false } with | .ok dp => dp 7 | _ => [])
+    = ["A", "B", "C"] := by decide
+example : (match flagListLoader exFlag lowerCfg {} with
+    | .ok ld => ld (.list [.str "ab", .str "c"]) | _ => .escape "") = .ok 7 := by decide
+example : (match flagListLoader exFlag {} { allowDuplicates := false } with
+    | .ok ld => ld (.list [.bool true, .int 1]) | _ => .escape "") = .loadErr .duplicatedValues := by decide
+example : exFlag.membersValues.map (·.name) = ["Z", "A", "B", "AB", "C", "A"] := by decide
+example : (match flagExactLoader exFlag with | .ok ld => ld (.atom (.int 5)) | _ => .escape "") = .ok 5 := by
+  decide
+example : (match flagExactLoader exFlag with | .ok ld => ld (.atom (.bool true)) | _ => .escape "")
+    = .loadErr .typeLoad := by decide
+/-- `class M(Flag): AB = 3; C = 4` — CPython (STRICT) refuses 5 -/
+example : (match flagExactLoader { entries := [⟨"AB", 3⟩, ⟨"C", 4⟩] } with
+    | .ok ld => ld (.atom (.int 5)) | _ => .escape "") = .loadErr (.msg "Bad flag value") := by decide
+example : ¬ ValidValue { entries := [⟨"AB", 3⟩, ⟨"C", 4⟩] } 5 := by unfold ValidValue; decide
+example : (flagExactLoader { entries := [⟨"A", 1⟩, ⟨"C", 4⟩] }).isOk = false := by decide
+example : ¬ EveryBitNamed { entries := [⟨"AB", 3⟩] } := by
+  intro h
+  obtain ⟨T, hT, hb⟩ := h ⟨"AB", 3⟩ (by decide)
+  have hnc : (FlagClass.nonCompound { entries := [⟨"AB", 3⟩] }) = [] := by decide
+  cases T with
+  | nil => exact absurd hb (by decide)
+  | cons t _ =>
+    have := hT t (by simp)
+    rw [hnc] at this
+    simp at this
+
+/-- `class E(Enum): ONE = 1; T = True (alias); L = [1, 2]` -/
+def exEnum : EnumClass :=
+  { entries := [⟨"ONE", .atom (.int 1), none⟩, ⟨"T", .atom (.bool true), some "ONE"⟩,
+                ⟨"L", .list [.int 1, .int 2], none⟩] }
+
+example : exEnum.WF :=
+  ⟨by decide, by decide⟩
+example : enumExactLoader exEnum (.atom (.bool true)) = .ok ⟨"ONE", .atom (.int 1)⟩ := by decide
+example : enumExactLoader exEnum (.list [.float 1, .int 2]) = .ok ⟨"L", .list [.int 1, .int 2]⟩ := by decide
+example : (enumExactLoader exEnum (.tuple [.int 1, .int 2])).isLoadErr = true := by decide
+example : InjectiveNames exEnum lowerCfg := by decide
+example : ¬ InjectiveNames { entries := [⟨"a", .atom (.int 1), none⟩, ⟨"A", .atom (.int 2), none⟩] } lowerCfg := by
+  decide
+example : (match enumNameLoader exEnum lowerCfg with
+    | .ok ld => ld (.atom (.str "one")) | _ => .escape "") = .ok ⟨"ONE", .atom (.int 1)⟩ := by decide
+example : enumValueLoader exEnum .int (.atom (.bool true)) = .loadErr .typeLoad := by decide
 
 end Adaptix.Enum.C18
